@@ -1,8 +1,6 @@
 package pdu
 
 import (
-	"fmt"
-
 	. "github.com/M2MGateway/go-smpp/coding"
 )
 
@@ -40,8 +38,12 @@ func ComposeMultipartShortMessage(input string, coding DataCoding, reference uin
 }
 
 func CombineMultipartDeliverSM(on func([]*DeliverSM)) func(*DeliverSM) {
-	registry := make(map[string][]*DeliverSM)
-	isDone := func(id string, total byte) bool {
+	type key struct {
+		source, dest Address
+		reference    uint16
+	}
+	registry := make(map[key][]*DeliverSM)
+	isDone := func(id key, total byte) bool {
 		for _, sm := range registry[id] {
 			if sm != nil {
 				total--
@@ -54,11 +56,7 @@ func CombineMultipartDeliverSM(on func([]*DeliverSM)) func(*DeliverSM) {
 		if header == nil {
 			on([]*DeliverSM{p})
 		} else {
-			id := fmt.Sprint(
-				p.SourceAddr.TON, p.SourceAddr.NPI, p.SourceAddr.No,
-				p.DestAddr.TON, p.DestAddr.NPI, p.DestAddr.No,
-				header.Reference,
-			)
+			id := key{p.SourceAddr, p.DestAddr, header.Reference}
 			if _, ok := registry[id]; !ok {
 				registry[id] = make([]*DeliverSM, header.TotalParts)
 			}
